@@ -1771,3 +1771,33 @@ func (i *interpreter) isEOF(e iface) bool {
 	eof, ok := i.foreignGlobalValue("io", "EOF").(iface)
 	return ok && eof.t != nil && e.t == eof.t && e.v == eof.v
 }
+
+// strings.Replacer: native handle (concrete operands only)
+type nativeReplacer struct{ r *strings.Replacer }
+
+func (*nativeReplacer) isNativeHandle() {}
+
+func init() {
+	externals["strings.NewReplacer"] = func(fr *frame, a []value) value {
+		var args []string
+		for _, v := range a[0].([]value) {
+			s, ok := v.(string)
+			if !ok {
+				panic(unsupported{"strings.NewReplacer with symbolic arguments"})
+			}
+			args = append(args, s)
+		}
+		return ptrTo(&nativeReplacer{strings.NewReplacer(args...)})
+	}
+	externals["(*strings.Replacer).Replace"] = func(fr *frame, a []value) value {
+		r := (*(a[0].(*value))).(*nativeReplacer).r
+		s, ok := a[1].(string)
+		if !ok {
+			panic(unsupported{"strings.Replacer.Replace of a symbolic string"})
+		}
+		return r.Replace(s)
+	}
+	foreignGlobalInit["net/http.cookieNameSanitizer"] = func(i *interpreter) value {
+		return ptrTo(&nativeReplacer{strings.NewReplacer("\n", "-", "\r", "-")})
+	}
+}
